@@ -13,8 +13,12 @@ namespace FIX8 { namespace UTEST { const F8MetaCntx& ctx(); } namespace F44 { co
 #include <sys/syscall.h>
 #include <time.h>
 #include <atomic>
-namespace vf { std::atomic<bool> vclock_on(false); std::atomic<long long> vclock_ns(0); std::atomic<long long> sleeps(0); }
-extern "C" int clock_gettime(clockid_t id, struct timespec *ts)
+#include <pthread.h>
+namespace vf {
+std::atomic<bool> vclock_on(false); std::atomic<long long> vclock_ns(0); std::atomic<long long> sleeps(0);
+static thread_local std::atomic<long long> tl_sleep_count{0};
+std::atomic<long long> *sleep_counter_of_self() { return &tl_sleep_count; }   // valid while the calling thread lives
+}extern "C" int clock_gettime(clockid_t id, struct timespec *ts)
 {
 	if (id == CLOCK_REALTIME && vf::vclock_on)
 	{
@@ -26,7 +30,16 @@ extern "C" int clock_gettime(clockid_t id, struct timespec *ts)
 }
 extern "C" int clock_nanosleep(clockid_t id, int flags, const struct timespec *req, struct timespec *rem)
 {
-	if (vf::vclock_on) { ++vf::sleeps; return 0; }   // sleeps are no-ops on the virtual clock
+	if (vf::vclock_on)
+	{
+		// sleeps do not wait for real time on the virtual clock (20 us, so that polling loops do not burn a core); counted per thread so that a
+		// harness can tell when a polling thread has gone round its loop
+		++vf::sleeps;
+		++*vf::sleep_counter_of_self();
+		struct timespec t20 {0, 20000};
+		syscall(SYS_clock_nanosleep, CLOCK_MONOTONIC, 0, &t20, nullptr);
+		return 0;
+	}
 	return static_cast<int>(syscall(SYS_clock_nanosleep, id, flags, req, rem)) ? errno : 0;
 }
 
